@@ -4,6 +4,7 @@ import (
 	"context"
 	"fmt"
 	"log/slog"
+	"net/http"
 	"regexp"
 	"sort"
 	"strconv"
@@ -11,8 +12,11 @@ import (
 	"sync"
 	"time"
 
+	"github.com/regclient/regclient"
 	"github.com/regclient/regclient/cmd/regbot/sandbox"
+	"github.com/regclient/regclient/config"
 	"github.com/regclient/regclient/internal/pqueue"
+	"github.com/regclient/regclient/scheme/reg"
 	"github.com/regclient/regclient/zz_verif/rcutil"
 	rm "github.com/regclient/regclient/zz_verif/regmodel"
 )
@@ -100,7 +104,9 @@ type Monitor struct {
 	// statement boundary and after a script nothing holds a slot)
 	throttle     *pqueue.Queue[struct{}]
 	throttleMax  int
-	throttleFree int // slots known to be free at the last drain test
+	throttleFree int    // slots known to be free at the last drain test
+	cancel       func() // cancels the command context (Case.CancelAt)
+	Cancelled    bool
 }
 
 // Drain is the drain test of a throttle that nothing uses any more: exactly max
@@ -213,6 +219,10 @@ func (mo *Monitor) onArrive(e *rm.Entry) {
 			mo.Probes++
 			mo.lookAtLayouts()
 			mo.lookAtThrottle()
+			if ca := mo.w.C.CancelAt; len(ca) == 2 && ca[0] == si && ca[1] == k && mo.cancel != nil && !mo.Cancelled {
+				mo.Cancelled = true
+				mo.cancel()
+			}
 			if si >= 0 && si < len(mo.cur) {
 				mo.cur[si] = k
 				mo.last = si
@@ -318,6 +328,19 @@ type ScriptObs struct {
 	Panic  string // a Go panic left RunScript (direct mode)
 }
 
+// Cancelled tells whether the script saw a cancelled context.
+func (so ScriptObs) Cancelled() bool {
+	if strings.Contains(so.Err, "context canceled") {
+		return true
+	}
+	for _, m := range so.Msgs {
+		if strings.Contains(m, "context canceled") {
+			return true
+		}
+	}
+	return false
+}
+
 // TimedOut tells whether a context deadline fired in the script.
 func (so ScriptObs) TimedOut() bool {
 	if strings.Contains(so.Err, "context deadline exceeded") {
@@ -346,11 +369,12 @@ func (so ScriptObs) BlockedOnThrottle() bool {
 
 // Obs is the observation of one run.
 type Obs struct {
-	Scripts  []ScriptObs
-	Offenses []Offense
-	Probes   int
-	CmdErr   string // cobra: error returned by the command
-	CmdPanic string // cobra: a Go panic left the command
+	Scripts   []ScriptObs
+	Offenses  []Offense
+	Probes    int
+	CmdErr    string // cobra: error returned by the command
+	CmdPanic  string // cobra: a Go panic left the command
+	Cancelled bool   // the harness cancelled the command context (Case.CancelAt)
 	// cobra: drain test on the command's throttle after it returned (Max 0 = not run)
 	ThrottleFree, ThrottleMax int
 }
@@ -385,7 +409,7 @@ func BuildScriptObs(c Case, recs []LogRec, failRecs bool) []ScriptObs {
 // CobraFn runs the case through the real `regbot once` command (implemented by
 // the white-box test in package main of cmd/regbot). It must route registry
 // traffic to w.Model and return the parsed log records.
-type CobraFn func(w *World, c Case, dry bool) (out CobraOut, infra error)
+type CobraFn func(ctx context.Context, w *World, c Case, dry bool) (out CobraOut, infra error)
 
 // CobraOut is what the cobra driver hands back.
 type CobraOut struct {
@@ -408,6 +432,9 @@ func Run(w *World, c Case, dry bool, cobra CobraFn) (*Obs, error) {
 	if err != nil {
 		return nil, err
 	}
+	ctx, cancel := context.WithCancel(context.Background())
+	defer cancel()
+	mo.cancel = cancel
 	obs := &Obs{}
 	type res struct {
 		so       []ScriptObs
@@ -432,7 +459,7 @@ func Run(w *World, c Case, dry bool, cobra CobraFn) (*Obs, error) {
 				r.err = fmt.Errorf("no cobra runner in this binary")
 				return
 			}
-			co, ierr := cobra(w, c, dry)
+			co, ierr := cobra(ctx, w, c, dry)
 			if ierr != nil {
 				r.err = ierr
 				return
@@ -444,7 +471,7 @@ func Run(w *World, c Case, dry bool, cobra CobraFn) (*Obs, error) {
 				r.cmdErr = co.CmdErr.Error()
 			}
 		default:
-			r.so = runDirect(w, c, dry, mo)
+			r.so = runDirect(ctx, w, c, dry, mo)
 		}
 	}()
 	var r res
@@ -463,15 +490,28 @@ func Run(w *World, c Case, dry bool, cobra CobraFn) (*Obs, error) {
 	obs.Scripts, obs.CmdErr, obs.CmdPanic = r.so, r.cmdErr, r.cmdPanic
 	obs.ThrottleFree, obs.ThrottleMax = r.tFree, r.tMax
 	obs.Offenses, obs.Probes = mo.Offenses, mo.Probes
+	obs.Cancelled = mo.Cancelled
 	return obs, nil
 }
 
 // runDirect is the sandbox driver: what cmd/regbot's process() does for each
 // script, in order, with one shared client and throttle.
-func runDirect(w *World, c Case, dry bool, mo *Monitor) []ScriptObs {
-	rc := rcutil.New(w.Model, rcutil.Conf{})
+func runDirect(base context.Context, w *World, c Case, dry bool, mo *Monitor) []ScriptObs {
+	conf := rcutil.Conf{RegOpts: []reg.Opts{reg.WithHTTPClient(&http.Client{Transport: w.Transport()})}}
+	for _, hc := range c.Hosts {
+		if hc.User != "" {
+			conf.Hosts = append(conf.Hosts, config.Host{Name: hc.Name, Hostname: hc.Name, User: hc.User, Pass: hc.Pass})
+		}
+	}
+	if c.Conf.UserAgent != "" {
+		conf.Opts = append(conf.Opts, regclient.WithUserAgent(c.Conf.UserAgent))
+	}
+	if c.Conf.BlobLimit != 0 {
+		conf.RegOpts = append(conf.RegOpts, reg.WithBlobLimit(c.Conf.BlobLimit))
+	}
+	rc := rcutil.New(w.Model, conf)
 	lvl := slog.LevelInfo
-	if c.Verbosity == "debug" {
+	if c.Verbosity == "debug" || c.Verbosity == "trace" {
 		lvl = slog.LevelDebug
 	}
 	h, get := NewCapHandler(lvl)
@@ -491,7 +531,7 @@ func runDirect(w *World, c Case, dry bool, mo *Monitor) []ScriptObs {
 					panics[i] = fmt.Sprint(p)
 				}
 			}()
-			ctx := context.Background()
+			ctx := base
 			to := s.Timeout
 			if to == "" {
 				to = c.DefTimeout // what scriptSetDefaults does
